@@ -166,7 +166,7 @@ def run_harnesses(names, timeout=1800, jobs=8, playback=False):
                 cmd += ['--features', feats]
             for n in ns:
                 cmd += ['--harness', n]
-            cmd += ['--output-format', 'regular', '-Z', 'unstable-options', '--harness-timeout', '%ds' % max(reg[n].get('timeout', 120) for n in ns)]
+            cmd += ['--output-format', 'regular', '-Z', 'unstable-options', '--harness-timeout', '%ds' % max(reg[n].get('timeout', 300) for n in ns)]
             env = dict(os.environ)
             env['CARGO_NET_OFFLINE'] = 'true'
             env['CARGO_TARGET_DIR'] = os.path.join(CACHE, 'kani-target')
